@@ -157,6 +157,25 @@ def run_case(case, ctx):
             ok, v = ctx.call(APIS[2], c2, D.treesum)
             if ok:
                 judge(APIS[2], v, want[p], c2, "derivative(tagged).treesum")
+    import random as _random
+
+    trng = _random.Random(len(g["rules"]))
+    for p in prefixes:
+        if not (1 <= len(p) <= 2) or trng.random() > 0.4:
+            continue
+        for form, pv in lib.token_variants(p, trng)[1:]:
+            if form in ("list", "str"):
+                continue
+            c2 = dict(case, p=list(p), token_form=form)
+            ctx.shape[f"tokens:{form}"] += 1
+            ok, v = ctx.call(APIS[0], c2, cfg.prefix_weight, pv)
+            if ok:
+                judge(APIS[0], v, want[p], c2, "prefix_weight(numpy-tokens)")
+            ok, D = ctx.call(APIS[2], c2, cfg.derivatives, pv)
+            if ok:
+                ok, v = ctx.call(APIS[2], c2, D[-1].treesum)
+                if ok:
+                    judge(APIS[2], v, want[p], c2, "derivatives(numpy-tokens).treesum")
     for a in sorted(g["V"], key=repr):
         ok, D = ctx.call(APIS[3], dict(case, a=a), cfg.derivative, a)
         if not ok:
